@@ -170,3 +170,61 @@ Print Assumptions C11_integer_suffixes_ok.
 Theorem C11_unbounded_implies_bounded_form : forall ty w rest, lex_one_ok_u nouni nouni ty w rest -> lex_one_ok ty w rest = true.
 Proof. exact lex_one_ok_of_u. Qed.
 Print Assumptions C11_unbounded_implies_bounded_form.
+
+(* ---- UNBOUNDED accept theorems beyond integers (Proofs/CConstUnbounded2.v): all uw ud, bodies of ANY length, every suffix of
+   the source's float table, every continuation that starts with a delimiter (`delim`).  Same statement form as the integer
+   theorems: lex_one_ok_u uw ud ty w rest (one token of type ty, value w, spanning exactly w, line 1 col 1, no diagnostic). *)
+From NV Require Import Proofs.CConstUnbounded2.
+
+(* digits . digits [exponent] suffix (integer or fraction part may be empty, not both) *)
+Theorem C11_accept_float_fractional_unbounded : forall (uw ud : N -> bool) ip fp ex sfx rest,
+  forallb ascii_digit ip = true -> forallb ascii_digit fp = true -> (ip <> [] \/ fp <> []) ->
+  opt_exp [101; 69]%N ex -> str_in sfx float_suffixes = true -> delim rest = true ->
+  lex_one_ok_u uw ud (s "CONSTANT") ((ip ++ 46%N :: fp) ++ ex ++ sfx) rest.
+Proof. exact accept_float_fractional. Qed.
+Print Assumptions C11_accept_float_fractional_unbounded.
+
+(* digits exponent suffix *)
+Theorem C11_accept_float_exponent_unbounded : forall (uw ud : N -> bool) ip e sgn ed sfx rest,
+  forallb ascii_digit ip = true -> ip <> [] ->
+  in_set [101; 69]%N e = true -> sign_ok sgn = true -> forallb ascii_digit ed = true -> ed <> [] ->
+  str_in sfx float_suffixes = true -> delim rest = true ->
+  lex_one_ok_u uw ud (s "CONSTANT") (ip ++ (e :: sgn ++ ed) ++ sfx) rest.
+Proof. exact accept_float_exponent. Qed.
+Print Assumptions C11_accept_float_exponent_unbounded.
+
+(* string literals of any length: prefix in {"", L, u, U, u8}; the body is a list of items (plain character other than the
+   quote, backslash, newline, tab; simple escape; octal escape; \x + 1..2 hexadecimal digits), no di/trigraph formed (items_ok) *)
+Theorem C11_accept_string_unbounded_partial : forall (uw ud : N -> bool) pre items rest,
+  c_prefix pre -> items_ok 34%N items (34%N :: rest) = true ->
+  lex_one_ok_u uw ud (s "STRING") (pre ++ 34%N :: sraws items ++ [34%N]) rest.
+Proof. exact accept_string. Qed.
+Print Assumptions C11_accept_string_unbounded_partial.
+
+(* character constants: exactly one item *)
+Theorem C11_accept_char_unbounded_partial : forall (uw ud : N -> bool) pre it rest,
+  c_prefix pre -> item_ok 39%N it (39%N :: rest) = true ->
+  lex_one_ok_u uw ud (s "CHAR_CONST") (pre ++ 39%N :: sraw it ++ [39%N]) rest.
+Proof. exact accept_char. Qed.
+Print Assumptions C11_accept_char_unbounded_partial.
+
+(* hexadecimal floats: integer part and (when there is a dot) fraction non-empty - the complement of the finding
+   C11-hexfloat-empty-part; the remainder of the suffix after its hexadecimal letters is a suffix of the table - implied by
+   the complement of the finding C11-hexfloat-hex-suffix (C11_hexfloat_suffix_guard), and weaker (0x1p3dl is accepted) *)
+Theorem C11_accept_hexfloat_unbounded_partial : forall (uw ud : N -> bool) xc hi frac p sgn d0 ed sfx rest,
+  is_xX xc = true -> forallb is_hex hi = true -> hi <> [] ->
+  (frac = [] \/ exists fp, frac = 46%N :: fp /\ forallb is_hex fp = true /\ fp <> []) ->
+  is_pP p = true -> sign_ok sgn = true -> forallb ascii_digit (d0 :: ed) = true ->
+  str_in sfx float_suffixes = true -> str_in (hexfloat_sfx_rem sfx) float_suffixes = true -> delim rest = true ->
+  lex_one_ok_u uw ud (s "CONSTANT") ((48%N :: xc :: hi ++ frac) ++ (p :: sgn ++ d0 :: ed) ++ sfx) rest.
+Proof. exact accept_hexfloat_partial. Qed.
+Print Assumptions C11_accept_hexfloat_unbounded_partial.
+Theorem C11_hexfloat_suffix_guard : forall sfx, str_in sfx float_suffixes = true -> hexfloat_sfx_bad sfx = false ->
+  str_in (hexfloat_sfx_rem sfx) float_suffixes = true.
+Proof. exact hexfloat_sfx_guard_ok. Qed.
+Print Assumptions C11_hexfloat_suffix_guard.
+
+(* every float suffix of the source's table: ASCII letters/digits, first letter not e/E *)
+Theorem C11_float_suffixes_ok : forallb fsfx_ok float_suffixes = true.
+Proof. exact float_suffixes_ok. Qed.
+Print Assumptions C11_float_suffixes_ok.
